@@ -1,7 +1,7 @@
 #!/bin/sh
 # dev helper: ./seedrun.sh <patch-file> <Cxx> [<Cyy> ...]  -- applies a seeded change to /repo, runs checks, reverts
 cd "$(dirname "$0")"
-pf=$1; shift
+pf=$(readlink -f "$1"); shift
 if ! git -C /repo diff --quiet; then echo "/repo is dirty"; exit 3; fi
 git -C /repo apply "$pf" || { echo "patch does not apply"; exit 3; }
 for p in "$@"; do
